@@ -147,12 +147,15 @@ pub struct Tag { pub name: String, pub target: usize, pub annotated: bool }
 pub enum Head { Branch(String), Detached(usize) }
 
 #[derive(Clone, Copy, Debug, PartialEq, Eq, Hash)]
-pub enum WorkTree { Clean, ModifiedTracked, StagedNew, Untracked, IgnoredOnly, ModifiedAndIgnored, DeletedTracked, StagedModification, UntrackedInSubdir, EmptyUntrackedDir, IgnoredDir, StagedDeletion, StagedRename, ModeChange, StagedThenReverted, StagedModWorktreeAsHead, StagedNewThenDeleted, GitlinkMoved, GitlinkMovedStaged, FileNamedLikeTag, FileNamedHead, TouchedTracked }
+pub enum WorkTree { Clean, ModifiedTracked, StagedNew, Untracked, IgnoredOnly, ModifiedAndIgnored, DeletedTracked, StagedModification, UntrackedInSubdir, EmptyUntrackedDir, IgnoredDir, StagedDeletion, StagedRename, ModeChange, StagedThenReverted, StagedModWorktreeAsHead, StagedNewThenDeleted, GitlinkMoved, GitlinkMovedStaged, FileNamedLikeTag, FileNamedHead, TouchedTracked, SubmoduleCheckedOutClean, SubmoduleUntrackedInside, SubmoduleModifiedInside }
 
 impl WorkTree {
-    pub fn dirty(self) -> bool { !matches!(self, WorkTree::Clean | WorkTree::IgnoredOnly | WorkTree::EmptyUntrackedDir | WorkTree::IgnoredDir | WorkTree::StagedThenReverted | WorkTree::TouchedTracked) }
-    pub const ALL: [WorkTree; 22] = [WorkTree::Clean, WorkTree::ModifiedTracked, WorkTree::StagedNew, WorkTree::Untracked, WorkTree::IgnoredOnly, WorkTree::ModifiedAndIgnored, WorkTree::DeletedTracked, WorkTree::StagedModification, WorkTree::UntrackedInSubdir, WorkTree::EmptyUntrackedDir, WorkTree::IgnoredDir, WorkTree::StagedDeletion, WorkTree::StagedRename, WorkTree::ModeChange, WorkTree::StagedThenReverted, WorkTree::StagedModWorktreeAsHead, WorkTree::StagedNewThenDeleted, WorkTree::GitlinkMoved, WorkTree::GitlinkMovedStaged, WorkTree::FileNamedLikeTag, WorkTree::FileNamedHead, WorkTree::TouchedTracked];
+    pub fn dirty(self) -> bool { !matches!(self, WorkTree::Clean | WorkTree::IgnoredOnly | WorkTree::EmptyUntrackedDir | WorkTree::IgnoredDir | WorkTree::StagedThenReverted | WorkTree::TouchedTracked | WorkTree::SubmoduleCheckedOutClean) }
+    pub const ALL: [WorkTree; 25] = [WorkTree::Clean, WorkTree::ModifiedTracked, WorkTree::StagedNew, WorkTree::Untracked, WorkTree::IgnoredOnly, WorkTree::ModifiedAndIgnored, WorkTree::DeletedTracked, WorkTree::StagedModification, WorkTree::UntrackedInSubdir, WorkTree::EmptyUntrackedDir, WorkTree::IgnoredDir, WorkTree::StagedDeletion, WorkTree::StagedRename, WorkTree::ModeChange, WorkTree::StagedThenReverted, WorkTree::StagedModWorktreeAsHead, WorkTree::StagedNewThenDeleted, WorkTree::GitlinkMoved, WorkTree::GitlinkMovedStaged, WorkTree::FileNamedLikeTag, WorkTree::FileNamedHead, WorkTree::TouchedTracked, WorkTree::SubmoduleCheckedOutClean, WorkTree::SubmoduleUntrackedInside, WorkTree::SubmoduleModifiedInside];
 }
+
+/// the commit every repository's gitlink `lib` records: an empty-tree root commit by v <v@v> at 1500000000 +0000, message "inner"
+pub const NESTED_COMMIT: &str = "780dd3ca1074701ebb3912bf6fa3dfca1eaf79d7";
 
 pub fn git_env() -> Vec<(String, String)> {
     proc::base_env_unpinned()
@@ -211,9 +214,9 @@ impl Repo {
             // every third commit is empty (tree identical to its first parent, as `git commit --allow-empty`, "ci: trigger"
             // commits or `merge -s ours` produce): it still counts for the distance
             if i % 3 != 2 { s += &format!("M 100644 inline f{i}\ndata {}\n{}\n", msg.len(), msg); }
-            // the root commit also records a gitlink (a submodule pointer) `lib`; the directory stays an uninitialised, empty
+            // the root commit also records a gitlink (a submodule pointer) `lib` to NESTED_COMMIT (see nested_repo); the directory stays an uninitialised, empty
             // submodule unless a work-tree state puts a nested repository there
-            if i == 0 { s += "M 100644 inline .gitignore\ndata 8\nignored*\nM 160000 1111111111111111111111111111111111111111 lib\n"; }
+            if i == 0 { s += "M 100644 inline .gitignore\ndata 8\nignored*\nM 160000 780dd3ca1074701ebb3912bf6fa3dfca1eaf79d7 lib\n"; }
             s += "\n";
         }
         for (b, c) in &shape.branches { s += &format!("reset refs/heads/{b}\nfrom :{}\n\n", c + 1); }
@@ -318,9 +321,16 @@ impl Repo {
             WorkTree::FileNamedLikeTag => { for n in ["v1.0.0", "v1.2.3", "1.5.0rc1", "v2.0.0"] { std::fs::write(p(n), "x").unwrap(); } }
             WorkTree::FileNamedHead => { std::fs::write(p("HEAD"), "x").unwrap(); }
             // the submodule directory holds a repository checked out at another commit than the recorded one ( M lib / M  lib)
+            // the submodule is checked out exactly at the recorded commit: clean; with an untracked or a modified file inside it,
+            // the superproject's `git status` says " M lib"
+            WorkTree::SubmoduleCheckedOutClean | WorkTree::SubmoduleUntrackedInside | WorkTree::SubmoduleModifiedInside => {
+                self.nested_repo(&p("lib"), w == WorkTree::SubmoduleModifiedInside);
+                if w == WorkTree::SubmoduleUntrackedInside { std::fs::write(p("lib/untracked.txt"), "x").unwrap(); }
+                if w == WorkTree::SubmoduleModifiedInside { std::fs::write(p("lib/tracked.txt"), "changed").unwrap(); }
+            }
             WorkTree::GitlinkMoved | WorkTree::GitlinkMovedStaged => {
-                git(&p("lib"), &["init", "-q", "-b", "main"], None);
-                git(&p("lib"), &["commit", "-q", "--allow-empty", "-m", "inner"], None);
+                self.nested_repo(&p("lib"), false);
+                git(&p("lib"), &["commit", "-q", "--allow-empty", "-m", "moved on"], None);
                 if w == WorkTree::GitlinkMovedStaged { git(&self.dir, &["add", "lib"], None); }
             }
             // staged change whose work-tree copy has been put back to the committed content (status MM): index != HEAD
@@ -341,6 +351,25 @@ impl Repo {
             std::fs::write(p(tracked_file), &orig).unwrap();
             let f = std::fs::OpenOptions::new().write(true).open(p(tracked_file)).unwrap();
             let _ = f.set_modified(std::time::UNIX_EPOCH + std::time::Duration::from_secs(1_000_000_000));
+        }
+    }
+
+    /// A repository in the submodule directory whose HEAD is the commit the gitlink records (deterministic: fixed identity,
+    /// date and message). With `with_file` a file is additionally staged inside it (the recorded commit has an empty tree).
+    fn nested_repo(&self, dir: &Path, with_file: bool) {
+        git(dir, &["init", "-q", "-b", "main"], None);
+        let mut cmd = std::process::Command::new("git");
+        cmd.args(["commit", "-q", "--allow-empty", "-m", "inner"]).current_dir(dir).env_clear().stdin(std::process::Stdio::null());
+        for (k, v) in git_env() { cmd.env(k, v); }
+        cmd.env("GIT_AUTHOR_DATE", "1500000000 +0000").env("GIT_COMMITTER_DATE", "1500000000 +0000");
+        if !cmd.output().map(|o| o.status.success()).unwrap_or(false) { machinery_error("nested repository: commit failed"); }
+        let head = git(dir, &["rev-parse", "HEAD"], None);
+        if head.trim() != NESTED_COMMIT { machinery_error(&format!("nested repository: HEAD is {} but the gitlink records {NESTED_COMMIT}", head.trim())); }
+        if with_file {
+            // a file that the nested repository tracks *at the recorded commit* cannot exist (that commit has an empty tree);
+            // "modified content" inside a submodule also covers staged additions, which is what is produced here
+            std::fs::write(dir.join("tracked.txt"), "x").unwrap();
+            git(dir, &["add", "tracked.txt"], None);
         }
     }
 
